@@ -38,12 +38,14 @@ WEAK = {"CanReserve": "Inv_C17_ReservationCapacity", "Release": "Inv_C17_Manager
         "PinAll": "Inv_C17_PinnedToHeldIds", "Strict": "Inv_C17_StrictNoFallback", "KeepHeld": "Inv_C17_StrictClaim",
         "PoolOrder": "Inv_C17_NoPoolFallback"}
 DFLAGS = ("W_OtherNC = TRUE  W_SameType = TRUE  W_Prealloc = TRUE  W_RefCount = TRUE  W_CapInflight = TRUE  W_CapDelta = TRUE  "
-          "W_Counters = TRUE  W_Template = TRUE")
+          "W_Counters = TRUE  W_Template = TRUE  W_Releasable = TRUE")
 DINVS = ["Inv_C17_DeviceExclusive", "Inv_C17_SharedCapacity", "Inv_C17_Counters", "Inv_C17_TrackerCoversEveryResolution"]
 DWEAK = {"OtherNC": "Inv_C17_DeviceExclusive", "SameType": "Inv_C17_DeviceExclusive", "Prealloc": "Inv_C17_DeviceExclusive",
          "RefCount": "Inv_C17_DeviceExclusive", "CapInflight": "Inv_C17_SharedCapacity", "CapDelta": "Inv_C17_TrackerCoversEveryResolution",
-         "Counters": "Inv_C17_Counters", "Template": "Inv_C17_DeviceExclusive"}
-DALL = 'NCs = {"N1", "N2"}  Kinds = {"net", "net2", "shm2", "shm3", "gpu", "tshm"}  Pres = {0, 1, 2}  Slots = {0, 1, 2}'
+         "Counters": "Inv_C17_Counters", "Template": "Inv_C17_DeviceExclusive",
+         # the seed rule gatherAllocatedDevices has today (known finding F-C17-1..3): the model only holds with the corrected rule
+         "Releasable": "Inv_C17_DeviceExclusive", "ReleasableShared": "Inv_C17_SharedCapacity"}
+DALL = 'NCs = {"N1", "N2"}  Kinds = {"net", "net2", "shm2", "shm3", "gpu", "tshm"}  Pres = {0, 1, 2, 3, 4, 5}  Slots = {0, 1, 2}'
 ALL = 'Layouts = {1,2,3}  Caps = {0,1,2}  PoolSets = {1,2,3,4,5}  Modes = {"strict", "fallback"}'
 
 SCOPE = {
